@@ -110,13 +110,15 @@ impl Sched {
     }
 
     /// worker: I am at `pos`; give the baton back and wait for my next turn
-    fn yield_at(&self, me: usize, pos: Pos) {
+    fn yield_at(&self, me: usize, pos: Pos, log: bool) {
         if std::thread::panicking() {
             return; // unwinding (abort of the run, or a panic of the library): never block in a destructor
         }
         let mut g = self.m.lock().unwrap();
         g.pos[me] = pos.clone();
-        g.log.push((me, pos));
+        if log {
+            g.log.push((me, pos));
+        }
         g.turn = None;
         self.cv.notify_all();
         match self.mode {
@@ -209,9 +211,15 @@ impl Sched {
 }
 
 fn yield_here(pos: Pos) {
+    yield_log(pos, true)
+}
+
+/// `log = false`: a waiting thread that looked again and found the slot still in process (this is not
+/// a step of the model: only the OS-scheduled mode lets a thread look before the slot is stored)
+fn yield_log(pos: Pos, log: bool) {
     let me = ME.with(|m| m.borrow().clone());
     if let Some((i, s)) = me {
-        s.yield_at(i, pos);
+        s.yield_at(i, pos, log);
     } else if matches!(pos, Pos::Waiting(_)) {
         std::thread::yield_now(); // free-running thread waiting for a slot of `HCache`
     }
@@ -263,13 +271,15 @@ impl<V: Clone> HHandle<V> {
 impl<V: Clone> Cache<V> for HHandle<V> {
     fn get_or_compute(&self, key: PlainRef, compute: impl FnOnce() -> V) -> V {
         let mut compute = Some(compute);
+        let mut first = true;
         loop {
             let mut g = self.0.slots.lock().unwrap();
             match g.get(&key) {
                 Some(HSlot::Computed(v)) => return v.clone(),
                 Some(HSlot::InProcess) => {
                     drop(g);
-                    yield_here(Pos::Waiting(key.id)); // `poll`: condvar.wait, re-check
+                    yield_log(Pos::Waiting(key.id), first); // `poll`: condvar.wait, re-check
+                    first = false;
                 }
                 None => {
                     g.insert(key, HSlot::InProcess);
@@ -360,7 +370,7 @@ where
                 None => do_call(file, &own, c, Mode::Canon),
             };
             out.lock().unwrap()[me].push(a);
-            sched.yield_at(me, Pos::Start);
+            sched.yield_at(me, Pos::Start, true);
         }
     }));
     ME.with(|m| *m.borrow_mut() = None);
@@ -652,11 +662,13 @@ fn flush(driver: &Driver, st: &mut RStream, batch: &mut Batch) {
     }
 }
 
-fn stream_exhaustive(driver: &Driver, seed: u64, from: u64, to: u64, cap: usize, or: &mut Oracle, progress: &dyn Fn(&Value)) -> RStream {
+fn stream_exhaustive(driver: &Driver, seed: u64, from: u64, to: u64, cap: usize, budget_s: u64, or: &mut Oracle, progress: &dyn Fn(&Value)) -> RStream {
     let mut st = RStream::new("c13.exhaustive", true);
     st.exhaustive = true;
     let mut batch = Batch { requests: vec![], impls: vec![] };
+    let t0 = Instant::now();
     for case in from..to {
+        if t0.elapsed().as_secs() > budget_s { st.count("skipped=time-budget"); st.exhaustive = false; continue; }
         let mut rng = Rng::derive(seed, "c13.exhaustive", case);
         let d = small_doc(&mut rng, false);
         let bytes = d.bytes();
@@ -672,11 +684,13 @@ fn stream_exhaustive(driver: &Driver, seed: u64, from: u64, to: u64, cap: usize,
     st
 }
 
-fn stream_reduced(driver: &Driver, seed: u64, from: u64, to: u64, cap: usize, or: &mut Oracle, progress: &dyn Fn(&Value)) -> RStream {
+fn stream_reduced(driver: &Driver, seed: u64, from: u64, to: u64, cap: usize, budget_s: u64, or: &mut Oracle, progress: &dyn Fn(&Value)) -> RStream {
     let mut st = RStream::new("c13.reduced", true);
     st.exhaustive = true;
     let mut batch = Batch { requests: vec![], impls: vec![] };
+    let t0 = Instant::now();
     for case in from..to {
+        if t0.elapsed().as_secs() > budget_s { st.count("skipped=time-budget"); st.exhaustive = false; continue; }
         let mut rng = Rng::derive(seed, "c13.reduced", case);
         let d = small_doc(&mut rng, false);
         let bytes = d.bytes();
@@ -895,9 +909,25 @@ fn report_from_json(v: &Value) -> Report {
     rep
 }
 
+static HEARTBEAT: std::sync::atomic::AtomicU64 = std::sync::atomic::AtomicU64::new(0);
+
 fn child_work(driver: &Driver, seed: u64, thorough: bool, progress_path: &str, only: Option<&Value>) -> Report {
+    use std::sync::atomic::Ordering;
     install_hook();
-    let progress = |v: &Value| { let _ = std::fs::write(progress_path, serde_json::to_string(v).unwrap_or_default()); };
+    let born = Instant::now();
+    // in-process watchdog: every case reports progress; none for a minute = some threads never finish
+    std::thread::spawn(move || loop {
+        std::thread::sleep(Duration::from_millis(500));
+        let now = born.elapsed().as_millis() as u64;
+        if now.saturating_sub(HEARTBEAT.load(Ordering::Relaxed)) > 60_000 {
+            eprintln!("c13: no progress for 60 s (threads blocked for ever?)");
+            std::process::exit(97);
+        }
+    });
+    let progress = |v: &Value| {
+        HEARTBEAT.store(born.elapsed().as_millis() as u64, Ordering::Relaxed);
+        let _ = std::fs::write(progress_path, serde_json::to_string(v).unwrap_or_default());
+    };
     let mut rep = Report::new("C13");
     if let Some(r) = only {
         // replay of one stored case: the stream it came from, that case only
@@ -905,8 +935,8 @@ fn child_work(driver: &Driver, seed: u64, thorough: bool, progress_path: &str, o
         let case = r["case"].as_u64().unwrap_or(0);
         let mut or = Oracle::new("c13.sequential");
         match r["stream"].as_str().unwrap_or("") {
-            "c13.exhaustive" => rep.streams.push(stream_exhaustive(driver, seed, case, case + 1, 200_000, &mut or, &progress)),
-            "c13.reduced" => rep.streams.push(stream_reduced(driver, seed, case, case + 1, 20_000, &mut or, &progress)),
+            "c13.exhaustive" => rep.streams.push(stream_exhaustive(driver, seed, case, case + 1, 200_000, u64::MAX, &mut or, &progress)),
+            "c13.reduced" => rep.streams.push(stream_reduced(driver, seed, case, case + 1, 20_000, u64::MAX, &mut or, &progress)),
             "c13.random" => rep.streams.push(stream_random(driver, "c13.random", SchedMode::Baton, seed, case, case + 1, &mut or, &progress)),
             "c13.os" => {
                 // the OS picks the schedule: repeat the case
@@ -923,10 +953,10 @@ fn child_work(driver: &Driver, seed: u64, thorough: bool, progress_path: &str, o
     rep.oracles.push(wor);
     let mut or = Oracle::new("c13.sequential");
     let t0 = Instant::now();
-    rep.streams.push(stream_exhaustive(driver, seed, 0, if thorough { 60 } else { 6 }, if thorough { 200_000 } else { 3000 }, &mut or, &progress));
+    rep.streams.push(stream_exhaustive(driver, seed, 0, if thorough { 40 } else { 6 }, if thorough { 20_000 } else { 2000 }, if thorough { u64::MAX } else { 20 }, &mut or, &progress));
     rep.extra.insert("seconds_exhaustive".into(), json!(t0.elapsed().as_secs_f64()));
     let t0 = Instant::now();
-    rep.streams.push(stream_reduced(driver, seed, 0, if thorough { 400 } else { 30 }, if thorough { 3000 } else { 200 }, &mut or, &progress));
+    rep.streams.push(stream_reduced(driver, seed, 0, if thorough { 200 } else { 30 }, if thorough { 1500 } else { 150 }, if thorough { u64::MAX } else { 25 }, &mut or, &progress));
     rep.extra.insert("seconds_reduced".into(), json!(t0.elapsed().as_secs_f64()));
     rep.streams.push(stream_random(driver, "c13.random", SchedMode::Baton, seed, 0, if thorough { 20_000 } else { 1500 }, &mut or, &progress));
     rep.streams.push(stream_random(driver, "c13.os", SchedMode::Token, seed, 0, if thorough { 10_000 } else { 600 }, &mut or, &progress));
@@ -959,7 +989,7 @@ pub fn run(driver: &Driver, seed: u64, thorough: bool, replay: Option<&Value>) -
     let mut child = std::process::Command::new(exe)
         .args(["C13", "--tier", if thorough { "thorough" } else { "quick" }, "--seed", &seed.to_string(), "--driver", &driver.path, "--out", &out.to_string_lossy(), "--replay", &spec.to_string_lossy()])
         .spawn().expect("spawn child");
-    let limit = Duration::from_secs(if thorough { 3 * 3600 } else { 100 });
+    let limit = Duration::from_secs(if thorough { 5 * 3600 } else { 900 });
     let t0 = Instant::now();
     let status = loop {
         match child.try_wait() {
